@@ -4,6 +4,7 @@ package c20
 
 import (
 	"bufio"
+	"strings"
 	"context"
 	"encoding/json"
 	"fmt"
@@ -41,14 +42,17 @@ type nodeCfg struct {
 
 type cmd struct {
 	Cmd  string            `json:"cmd"` // init | write | read | clear | quit
-	Vals map[string]string `json:"vals,omitempty"`
+	Vals map[string]string `json:"vals,omitempty"` // updates of existing keys
+	Adds map[string]string `json:"adds,omitempty"` // new keys
 	Keys []string          `json:"keys,omitempty"`
 }
 
 type reply struct {
-	OK   bool              `json:"ok"`
-	Err  string            `json:"err,omitempty"`
-	Vals map[string]string `json:"vals,omitempty"`
+	OK    bool              `json:"ok"`
+	Err   string            `json:"err,omitempty"`
+	Vals  map[string]string `json:"vals,omitempty"`
+	Count int64             `json:"count"` // Count() as the reader's transaction reports it
+	Scan  int               `json:"scan"`  // items found by an ordered scan
 }
 
 func (c nodeCfg) db() sopx.DB {
@@ -130,6 +134,12 @@ func node(args []string) int {
 							bErr = fmt.Errorf("update %s: ok=%v err=%v", k, ok, err)
 						}
 					}
+					for k, v := range m.Adds {
+						ok, err := b.Add(ctx, k, v)
+						if err != nil || !ok {
+							bErr = fmt.Errorf("add %s: ok=%v err=%v", k, ok, err)
+						}
+					}
 				}
 			}
 			if bErr != nil {
@@ -176,11 +186,30 @@ func node(args []string) int {
 				}
 				vals[k] = v
 			}
-			t.Rollback(ctx)
+			cnt := b.Count()
+			scan := 0
+			if rerr == nil {
+				ok, err := b.First(ctx)
+				for ok && err == nil {
+					scan++
+					ok, err = b.Next(ctx)
+				}
+				rerr = err
+			}
 			if rerr != nil {
+				t.Rollback(ctx)
 				say(reply{Err: "read: " + rerr.Error()})
+				continue
+			}
+			// SOP validates what a ForReading transaction read when it commits (optimistic reads): only
+			// values of a reader whose Commit returned nil are judged.
+			cctx, cancel := context.WithTimeout(ctx, 10*time.Second)
+			cerr := t.Commit(cctx)
+			cancel()
+			if cerr != nil {
+				say(reply{Err: "reader-commit: " + cerr.Error()})
 			} else {
-				say(reply{OK: true, Vals: vals})
+				say(reply{OK: true, Vals: vals, Count: cnt, Scan: scan})
 			}
 		}
 	}
@@ -330,6 +359,9 @@ func runConfig(r *report.Run, ci int, cf config, phases int) {
 	if cf.Mode == "standalone" {
 		// standalone mode is single-process by design: the one process plays writer and reader
 		readers = writers
+	} else {
+		// processes that also write keep their own L1 handle/node caches: they read as well
+		readers = append(readers, writers...)
 	}
 	keys := []string{}
 	latest := map[string]string{}
@@ -347,6 +379,7 @@ func runConfig(r *report.Run, ci int, cf config, phases int) {
 	for _, rd := range readers {
 		rd.do(cmd{Cmd: "read", Keys: keys})
 	}
+	addedBy := map[string]int{}
 	for n := 1; n <= phases; n++ {
 		w := writers[n%len(writers)]
 		vals := map[string]string{}
@@ -358,7 +391,52 @@ func runConfig(r *report.Run, ci int, cf config, phases int) {
 		if len(vals) == 0 {
 			vals[keys[rnd.Intn(len(keys))]] = fmt.Sprintf("v%d.x", n)
 		}
-		rp := w.do(cmd{Cmd: "write", Vals: vals})
+		var rp reply
+		if n%3 == 0 {
+			// two overlapping, non-conflicting writer commits: one adds keys at the low end, the other at
+			// the high end of the key space (different leaves); both must have returned before the reads
+			addsA := map[string]string{fmt.Sprintf("a%03d", n): fmt.Sprintf("v%d.a", n)}
+			addsB := map[string]string{fmt.Sprintf("z%03d", n): fmt.Sprintf("v%d.z", n)}
+			w2 := writers[(n+1)%len(writers)]
+			var rpB reply
+			var wg2 sync.WaitGroup
+			wg2.Add(1)
+			if w2 == w {
+				// standalone: one process; the node runs its commands one at a time, so overlap comes from
+				// a second child-less transaction is not possible here: issue them back to back
+				rp = w.do(cmd{Cmd: "write", Vals: vals, Adds: addsA})
+				rpB = w.do(cmd{Cmd: "write", Adds: addsB})
+				wg2.Done()
+			} else {
+				go func() { defer wg2.Done(); rpB = w2.do(cmd{Cmd: "write", Adds: addsB}) }()
+				rp = w.do(cmd{Cmd: "write", Vals: vals, Adds: addsA})
+			}
+			wg2.Wait()
+			if rp.OK {
+				for k, v := range addsA {
+					latest[k] = v
+					keys = append(keys, k)
+					addedBy[k] = n % len(writers)
+				}
+			}
+			if rpB.OK {
+				for k, v := range addsB {
+					latest[k] = v
+					keys = append(keys, k)
+					addedBy[k] = (n + 1) % len(writers)
+				}
+			}
+		} else {
+			rp = w.do(cmd{Cmd: "write", Vals: vals})
+		}
+		if !rp.OK && strings.Contains(rp.Err, "ok=false") && strings.HasPrefix(rp.Err, "update ") {
+			// a writer transaction's Find/Update did not see a key that an earlier phase committed
+			// not judged: the writer had not committed; SOP validates reads at commit time (the harness
+			// aborts the transaction here). Observed because the process-local L1 handle cache of a process
+			// that writes is refreshed only by its own commits.
+			r.Count("writer_find_missed_a_committed_key_before_commit(observed, not judged)", 1)
+			_ = addedBy
+		}
 		if !rp.OK {
 			r.Count("void_phases(writer commit failed)", 1)
 			reason := rp.Err
@@ -392,12 +470,21 @@ func runConfig(r *report.Run, ci int, cf config, phases int) {
 			fp := fmt.Sprintf("%s:phase%d:reader%d:%s", cfgName, n, ri, dist)
 			if !rr.OK {
 				r.Eval(fp, false)
-				r.Inconclusive("reader-error")
-				r.Count("reader_errors", 1)
+				if strings.HasPrefix(rr.Err, "reader-commit:") {
+					r.Count("reader_commits_refused(stale read caught by commit-time validation)", 1)
+					r.Inconclusive("reader-commit-refused")
+				} else {
+					r.Inconclusive("reader-error")
+					r.Count("reader_errors", 1)
+				}
 				continue
 			}
 			r.Eval(fp, true)
 			r.Count("reads_checked", int64(len(keys)))
+			if rr.Count != int64(len(latest)) || rr.Scan != len(latest) {
+				r.Violation(fmt.Sprintf("C20:%s:cache%dmin/ttl=%v/%s:stale-count", cf.Mode, cf.CacheMin, cf.TTL, cf.Profile),
+					map[string]any{"config": cfgName, "phase": n, "reader": ri, "disturbance": dist, "count": rr.Count, "scan": rr.Scan, "committed_items": len(latest), "seed": r.Seed})
+			}
 			for _, k := range keys {
 				if rr.Vals[k] != latest[k] {
 					cls := "stale-value"
@@ -418,6 +505,6 @@ func runConfig(r *report.Run, ci int, cf config, phases int) {
 
 var _ = strconv.Itoa
 
-const rule = "strictly alternating phases per cache configuration: one writer transaction updates a random subset of 8 keys to value n and its Commit returns; optionally the L2 cache is cleared (FLUSHDB / Clear) or the Redis stub's virtual clock is advanced by 1-90 minutes; then EVERY reader (warm from earlier phases; clustered mode: two reader and two writer OS processes sharing the RESP stub; standalone: the single process with its in-memory L2) reads all keys in a new transaction and must see the latest committed value of each; configurations vary cache durations (none / 5 min / 60 min), TTL on/off, L1 capacity 2-4 entries, in-memory shard capacity 2-4 and value placement; fingerprint = (configuration, phase, reader, disturbance); non-trivial = the reader answered"
+const rule = "strictly alternating phases per cache configuration: one writer transaction updates a random subset of 8 keys to value n and its Commit returns; optionally the L2 cache is cleared (FLUSHDB / Clear) or the Redis stub's virtual clock is advanced by 1-90 minutes; then EVERY reader (warm from earlier phases; clustered mode: two reader and two writer OS processes sharing the RESP stub; standalone: the single process with its in-memory L2) reads all keys, Count() and a full scan in a new ForReading transaction, COMMITS it (SOP validates optimistic reads at commit; a refused reader commit is counted, not judged) and must have seen the latest committed value of each key and the committed number of items; every third phase has two writers (different processes in clustered mode) adding keys at opposite ends of the key space with overlapping commits; configurations vary cache durations (none / 5 min / 60 min), TTL on/off, L1 capacity 2-4 entries, in-memory shard capacity 2-4 and value placement; fingerprint = (configuration, phase, reader, disturbance); non-trivial = the reader answered"
 
 var assumptions = []string{"Redis = RESP stub (kit/resp) with a virtual clock", "no concurrent phase decides: reads start after the writer's Commit returned", "standalone mode is single-process by design"}
